@@ -43,7 +43,8 @@ def _ivset_chunk(args):
 def cond_programs(r, n):
     out = []
     for _ in range(n):
-        f = r.choice(["p(X)", "> p(X)", "p(X) | q", "<? p(X)", "p(X) >? q", "~ p(X)", "2 > p(X)"])
+        f = r.choice(["p(X)", "> p(X)", "p(X) | q", "<? p(X)", "p(X) >? q", "~ p(X)", "2 > p(X)",
+                      "q", "> q", "q >? p(1)", "~ q", "p(1) | q"])      # the last five: same formula under different conditions
         c = r.choice(["e(X)", "e(X), d(X)", "d(X)", "not e(X), d(X)", "e(X), X > 1"])
         extra = r.choice(["", "; q", "; p(Y) : e(Y), d(Y)"])
         sign = r.choice(["not ", "not not "])
@@ -72,7 +73,7 @@ def correspondence(ctx):
     eq = {"pairs": 0, "equations_evaluated": 0, "horizons": 0}
     for st, d in par.pmap(_eq_one, [(t,) for t in texts], ctx.jobs):
         for k in st:
-            eq[k] += st[k]
+            eq[k] = eq.get(k, 0) + st[k]
         dis += d
     return {"interval_sequences": tot, "element_condition_programs": len(texts), "equations": eq,
             "sample": {"program": texts[0]}}, dis
@@ -99,9 +100,36 @@ def blit(r):
         return "X %s %d" % (r.choice(["<", "!=", ">="]), r.randint(1, 2))
     if k < 0.8:
         return r.choice(["not ", "not not "]) + "&tel { %s : %s }" % (r.choice(["p(Y)", "> q(Y)", "p(Y) | q(X)"]), r.choice(["d(Y)", "d(Y), Y != X", "p(Y), d(Y)"]))
-    if k < 0.88:
+    if k < 0.84:
         return "#count { Y : p(Y), d(Y) } %s X" % r.choice([">=", "<", "="])
+    if k < 0.93:
+        return elem_literal(r)
     return s + r.choice(["&initial", "&final"])
+
+ELEMS = {}
+
+def elem_literal(r):
+    """a body literal `&tel { F : C }` with a local variable Y over d(1..2), as a token; ELEMS maps the token to its schema text
+    and to the documented reading: the conjunction over the instances y of `C(y) -> F(y)` (written with `->` inside one element)"""
+    F = r.choice(["p(Y)", "> p(Y)", "q(1)", "> q(1)", "q(1) | p(X)", "p(Y) >? q(1)", "~ q(1)", "<? q(1)", "p(X)"])
+    conds = r.choice([["p(Y)"], ["not p(Y)"], ["p(Y)", "d(Y)"], ["d(Y)"], ["not q(Y)", "d(Y)"], ["p(Y)", "not q(1)"]])
+    if not any(c.startswith(("p(Y)", "d(Y)")) for c in conds):
+        conds.append("d(Y)")                      # safety: Y must be bound by a positive literal
+    sign = r.choice(["not ", "not not "])
+    schema = "%s&tel { %s : %s }" % (sign, F, ", ".join(conds))
+    def inst(y):
+        cs = [("~ " + c[4:] if c.startswith("not ") else c).replace("Y", str(y)) for c in conds]
+        return "((%s) -> (%s))" % (" & ".join(cs), F.replace("Y", str(y)))
+    reading = "%s&tel { %s }" % (sign, " & ".join(inst(y) for y in (1, 2)))
+    tok = "@E%d@" % len(ELEMS)
+    ELEMS[tok] = (schema, reading)
+    return tok
+
+def expand(text, which):
+    for tok, v in ELEMS.items():
+        if tok in text:
+            text = text.replace(tok, v[which])
+    return text
 
 def bform(r):
     a = lambda: r.choice(["p(X)", "q(X)", "p(X+1)", "q(3-X)", "-p(X)", "p(\"s\",X)"])
@@ -162,6 +190,7 @@ def _chunk(args):
     fails = []
     cnt = 0
     for _ in range(n):
+        ELEMS.clear()
         rules = [rule(r) for _ in range(r.randint(1, 3))]
         if r.random() < 0.35:
             # head formulas only: what is derived, and when, is entirely up to the head-formula translation
@@ -169,10 +198,10 @@ def _chunk(args):
                      for _ in range(r.randint(1, 2))]
         base = "#program always. d(1..2). { p(1..2) }. { q(1) }.\n"
         extra = r.choice(["", "#show p/1.\n#show q/1.\n#show -p/1.\n", "#external x(X) : d(X).\n"])
-        schema = base + extra + "\n".join("#program %s. %s" % (p, t) for p, t in rules)
-        inst = base + extra + "\n".join("#program %s. %s %s" % (p, instantiate(t, 1), instantiate(t, 2)) for p, t in rules)
-        a = oracles.impl_models(schema, H, limit=60)
-        b = oracles.impl_models(inst, H, limit=60)
+        schema = base + extra + "\n".join("#program %s. %s" % (p, expand(t, 0)) for p, t in rules)
+        inst = base + extra + "\n".join("#program %s. %s %s" % (p, instantiate(expand(t, 1), 1), instantiate(expand(t, 1), 2)) for p, t in rules)
+        a = oracles.impl_models(schema, H, limit=60, dedup=True)
+        b = oracles.impl_models(inst, H, limit=60, dedup=True)
         cnt += 1
         if a[0] == "err" or b[0] == "err":
             ca = a[1] if a[0] == "err" else "ok"
